@@ -302,6 +302,7 @@ Proof.
   all: try solve [intros _; apply Hstop; left; reflexivity].
   all: try solve [intros Hx; apply Hstop; exact Hx].
   all: try solve [split; intros _; first [apply Hconn; reflexivity | apply Hstop; auto]].
+  all: try solve [intros _; apply andb_true_iff in E0 as [_ E0]; apply Hconn; exact E0].
 Qed.
 
 Lemma is_idle_true p : is_idle p = true -> p = WIdle.
@@ -398,7 +399,9 @@ Record InvB (s : st) : Prop := {
   b_pce : forall e, pcode (pc s) = Some e -> bcast s = Some e;
   b_bc : bcast s <> None -> errphase (pc s) = true;
   b_eof : eof_seen s = true ->
-          (errphase (pc s) = true \/ pc s = WRaise 1) /\ (forall e, bcast s = Some e -> e = 1)
+          (errphase (pc s) = true \/ pc s = WRaise 1) /\ (forall e, bcast s = Some e -> e = 1);
+  b_lst : lst s = false -> reqs s = [];
+  b_skip : skipok s = true -> errphase (pc s) = true /\ wrote s = []
 }.
 
 (* what a request looks like after one step: either untouched, or one of the four updates *)
@@ -726,9 +729,36 @@ Proof.
   all: try solve [rewrite ?E in IH; simpl in IH; eapply IH; eauto].
   all: try solve [apply is_idle_true in E; rewrite E in Hac; discriminate].
   all: try solve [rewrite E in Hac; discriminate].
+  all: try solve [match goal with Hs : skipok _ = true |- _ => rewrite (proj2 (b_skip _ HB Hs)); intros [] end].
+  all: try solve [match goal with Hs : skipok _ && closing _ = true |- _ =>
+                    apply andb_true_iff in Hs as [Hs _]; rewrite (proj2 (b_skip _ HB Hs)); intros [] end].
   all: apply reg_guard in E as (-> & Hn & Hl); destruct (N.eq_dec id id0) as [->|Hne];
     [ rewrite tget_tset_same in Hg; injection Hg as <-; intros Hin; apply (a_wrote _ HA) in Hin; lia
     | rewrite tget_tset_other in Hg by assumption; eapply IH; eauto ].
+Qed.
+
+Lemma b_skip_step s l s' : InvA s -> InvB s -> step s l = Some s' ->
+  (lst s' = false -> reqs s' = []) /\ (skipok s' = true -> errphase (pc s') = true /\ wrote s' = []).
+Proof.
+  intros HA HB H. pose proof (b_lst _ HB) as Hl. pose proof (b_skip _ HB) as Hs.
+  pose proof (errphase_step _ _ _ H) as He.
+  destruct l; inv_step H; simpl in *.
+  all: try (destruct (qualify s); simpl in * ).
+  all: try solve [split; [exact Hl | intros Hx; destruct (Hs Hx) as [H1 H2]; split; [apply He; exact H1|exact H2]]].
+  all: try solve [split; [intros Hx; rewrite (Hl Hx); destruct rid; reflexivity
+                         | intros Hx; destruct (Hs Hx) as [H1 H2]; split; [apply He; exact H1|exact H2]]].
+  all: try solve [split; [discriminate | intros Hx; destruct (Hs Hx) as [H1 H2]; split; [apply He; exact H1|exact H2]]].
+  (* LDeq: the worker is idle, so skipok is false *)
+  all: try solve [split; [exact Hl | intros Hx; destruct (Hs Hx) as [H1 _]; discriminate H1]].
+  (* transitions inside the error phase *)
+  all: try solve [split; [exact Hl | intros Hx; destruct (Hs Hx) as [_ H2]; split; [reflexivity|exact H2]]].
+  (* LErrBcast: skipok := no listener; then no request was ever registered, so nothing was written *)
+  all: try solve [split; [exact Hl | intros Hx; apply negb_true_iff in Hx; split; [reflexivity|];
+                  destruct (wrote s) as [|w ws] eqn:Ew; [reflexivity|]; exfalso;
+                  assert (Hw : In w (wrote s)) by (rewrite Ew; simpl; auto);
+                  apply (a_wrote _ HA) in Hw; rewrite (Hl Hx) in Hw; simpl in Hw; lia]].
+  all: try solve [split; [exact Hl | intros _; split; [reflexivity|apply Hs; reflexivity]]].
+
 Qed.
 
 Lemma InvB_init q : InvB (init q).
@@ -756,6 +786,8 @@ Proof.
   - eapply b_late_step; eauto.
   - eapply b_ev_step; eauto.
   - eapply b_done_step; eauto.
+  - apply (proj1 (b_skip_step _ _ _ HA HB H)).
+  - apply (proj2 (b_skip_step _ _ _ HA HB H)).
 Qed.
 
 Definition Inv (s : st) : Prop := InvA s /\ InvB s.
